@@ -496,6 +496,19 @@ func smallTypeSystems(k int) []string {
 }
 
 var handSchemas = []string{
+	// nullability at an intermediate list level (every level counts for covariance)
+	"interface I { c: [[Int]!] } type T implements I { c: [[Int]] } type Query { t: T }",
+	"interface I { c: [[Int]!] } type T implements I { c: [[Int]!]! } type Query { t: T }",
+	"interface I { c: [[[Int!]]!]! } type T implements I { c: [[[Int!]]]! } type Query { t: T }",
+	"interface I { c: [[[Int]]] } type T implements I { c: [[[Int!]!]!]! } type Query { t: T }",
+	"interface I { c: [[Int]!] } interface J implements I { c: [[Int]] } type T implements J & I { c: [[Int]!] } type Query { t: T }",
+	"interface I { c: [[Int!]] } type T implements I { c: [[Int]] } type Query { t: T }",
+	// a prelude directive declared again by the document: the document's declaration is the one in force
+	"directive @deprecated(reason: String = \"x\", since: String) on FIELD_DEFINITION | OBJECT type Query @deprecated(since: \"1\") { a: Int }",
+	"directive @oneOf on OBJECT input In @oneOf { a: Int } type Query { f(i: In): Int }",
+	"directive @skip(if: Missing!) on FIELD type Query { a: Int }",
+	"directive @include(if: Query) on FIELD type Query { a: Int }",
+	"directive @specifiedBy(url: String!, note: String!) on SCALAR scalar D @specifiedBy(url: \"u\") type Query { d: D }",
 	// violations carried by types that exist only through extensions (the error is reported at the type itself)
 	"extend type Ghost implements Missing { a: Int } type Query { g: Ghost }",
 	"extend union U = Missing type Query { u: U }",
